@@ -126,8 +126,11 @@ UNIT = dict(
     dict(id='g_dtor', file=BASE, sig=r'~guard_ptr\(\)', c_sig='static void g_dtor(struct guard* self)',
          pre_subst=[(r'\bself\(\)\.', '', 'crtp_self')], self_calls={'reset': 'g_reset'}, must_fire={'self_call:reset': 1}),
     dict(id='g_swap', file=BASE, sig=r'void swap\(Derived& g\) noexcept', c_sig='static void g_swap(struct guard* self, struct guard* g)',
-         pre_subst=[(r'\bself\(\)\.', '', 'crtp_self')], members=['ptr'], calls={'std::swap': 'XV_SWAP'}, self_calls={'do_swap': 'g_do_swap'},
-         post_subst=ref('g'), must_fire={'call:std::swap': 1, 'self_call:do_swap': 1}),
+         # CRTP dispatch: self().do_swap(g) is the DERIVED class' do_swap (the hazard pointer slot is exchanged too); an unqualified do_swap(g) in the base
+         # class is the base's empty dummy (source g_base_do_swap) - the lowering keeps the two apart
+         pre_subst=[(r'\bself\(\)\.do_swap\(', 'XV_DERIVED_do_swap(self, ', 'crtp_self')], members=['ptr'], calls={'std::swap': 'XV_SWAP'}, self_calls={'do_swap': 'g_base_do_swap'},
+         post_subst=ref('g'), must_fire={'call:std::swap': 1, 'subst:crtp_self': 1}),
+    dict(id='g_base_do_swap', file=BASE, sig=r'void do_swap\(Derived&\s*\w*\) noexcept', c_sig='static void g_base_do_swap(struct guard* self, struct guard* g)', must_fire={}),
     # ---------------- hazard_pointer slot ----------------
     dict(S, id='hp_set_object', sig=r'void set_object\(detail::deletable_object\* obj\)', c_sig='static void hp_set_object(struct hp_slot* self, uintptr_t obj)',
          pre_subst=[(r'value\.store\((reinterpret_cast<void\*\*>\(obj\)),', r'value.store(SV_make(\1, 0),', 'implicit_marked_ptr')],
